@@ -15,6 +15,12 @@ ALIGN = ["left", "center", "right"]
 STYLES = ["none", "bold", "red on blue", "not bold", "link http://x"]
 
 
+# every character of the running Python's str.isspace(): what str.strip() strips and str.split() splits on
+WS = [chr(c) for c in list(range(0, 0x3100)) + [0xFEFF] if chr(c).isspace()]
+WS_MIX = ["\xa0\xa0", "\u3000\u2003", "\x1c\x1d\x1e\x1f", " \xa0", "\u2028\u2029", "\x85\n", "\t\u00a0 ", "\u2003" * 5]
+MARKUP = ["a [b]b[/b]", "total [bold]42[/bold]", "[green]$1[/green]", "[red]x[/red] [blue]yy[/blue] z", "[i]あ[/i]b", "[b]one two three four[/b] five"]
+
+
 class Timeout(BaseException):
     pass
 
@@ -50,6 +56,18 @@ def opt_width(rng, big=False):
 
 def gen_leaf(rng):
     k = rng.random()
+    if k < 0.06:
+        # a leaf made only of white space (any str.isspace character): measured through the "blank text" guard
+        ws = "".join(rng.choice(WS) for _ in range(rng.randint(1, 3)))
+        return ("str", {"s": ws}, []) if rng.random() < 0.5 else ("text", {"s": ws}, [])
+    if k < 0.18:
+        # a Text object that carries spans (markup) with every justify: rendered several times as the SAME object
+        o = {"s": rng.choice(MARKUP), "justify": rng.choice(JUST + [None])}
+        if rng.random() < 0.3:
+            o["no_wrap"] = True
+        if rng.random() < 0.3:
+            o["overflow"] = rng.choice(OVER + ["ignore"])
+        return ("mtext", o, [])
     if k < 0.30:
         return ("str", {"s": rng.choice(TEXTS)}, [])
     if k < 0.62:
@@ -93,6 +111,7 @@ def gen_tree(rng, depth):
         if rng.random() < 0.4:
             o["title"] = rng.choice(["t", "Panel title", "あ", "", "x" * 40])
             o["title_align"] = rng.choice(ALIGN)
+            o["title_markup"] = rng.random() < 0.4
         if rng.random() < 0.2:
             o["fit"] = True
         return ("panel", o, [sub()])
@@ -197,6 +216,12 @@ def build(desc):
     if kind == "text":
         kw = {k: o[k] for k in ("justify", "overflow", "no_wrap", "style", "end", "tab_size") if k in o}
         return Text(o["s"], **kw)
+    if kind == "mtext":
+        kw = {k: o[k] for k in ("justify", "overflow") if o.get(k) is not None}
+        t = Text.from_markup(o["s"], **kw)
+        if o.get("no_wrap") is not None:
+            t.no_wrap = o["no_wrap"]
+        return t
     if kind == "rule":
         return Rule(o["title"], align=o["align"], **({"characters": o["characters"]} if "characters" in o else {}))
     if kind == "bar":
@@ -207,6 +232,8 @@ def build(desc):
         return Pretty(o["obj"])
     if kind == "panel":
         kw = dict(title=o.get("title"), title_align=o.get("title_align", "center"), padding=o["padding"], width=o["width"])
+        if o.get("title_markup") and kw["title"]:
+            kw["title"] = Text.from_markup("[red]%s[/red]" % kw["title"])
         if o.get("fit"):
             return Panel.fit(ch[0], getattr(_box, o["box"]), **kw)
         return Panel(ch[0], getattr(_box, o["box"]), expand=o["expand"], **kw)
@@ -439,9 +466,57 @@ def level2():
         yield ("tree", {"root": {"label": inner, "expanded": True, "kids": [{"label": inner, "expanded": True, "kids": []}]}}, [])
 
 
+def _measuring(leaf):
+    """the containers that MEASURE their child (Measurement.get -> __rich_measure__), and the bare leaf"""
+    yield leaf
+    yield ("panel", {"box": "SQUARE", "expand": False, "padding": (0, 1), "width": None, "fit": True}, [leaf])
+    yield ("panel", {"box": "SQUARE", "expand": False, "padding": 0, "width": None}, [leaf])
+    yield ("padding", {"pad": (0, 1), "expand": False}, [leaf])
+    yield ("align", {"align": "right", "pad": True, "width": None}, [leaf])
+    yield ("columns", {"padding": (0, 1), "width": None, "expand": False, "equal": False, "column_first": False, "right_to_left": False, "align": None, "title": None}, [leaf, LEAF])
+    t = _table({}, [{}, {"justify": "right"}])
+    yield (t[0], t[1], [LEAF, leaf])
+    t = _table({"expand": True, "box": None}, [{"justify": "center", "ratio": 1}])
+    yield (t[0], t[1], [leaf])
+    yield ("tree", {"root": {"label": leaf, "expanded": True, "kids": [{"label": leaf, "expanded": True, "kids": []}]}}, [])
+
+
+def blank_trees():
+    """white-space-only leaves - every str.isspace character alone, and mixtures - wherever a leaf is measured; also as a
+    table header / footer and a panel / table title (str, so it goes through render_str)"""
+    for i, ws in enumerate(WS + WS_MIX):
+        yield from _measuring(("text", {"s": ws}, []))
+        if i % 4 == 0 or ws in WS_MIX:
+            yield from _measuring(("str", {"s": ws}, []))
+        yield _table({}, [{"header": ws, "footer": ws}], show_footer=True)
+        if i % 3 == 0:
+            yield _table({}, TABLE_COLS[1], title=ws, caption=ws)
+            yield ("panel", {"box": "ROUNDED", "expand": True, "padding": (0, 1), "width": None, "title": ws, "title_align": "center"}, [LEAF])
+            yield ("rule", {"title": ws, "align": "center"}, [])
+
+
+def repeat_trees():
+    """Text objects that carry spans, with every justify, bare and inside the containers: the small worker renders the SAME
+    object at every width of its sweep, so state shared between an object and its copies shows"""
+    for o in _prod(s=MARKUP[:3], justify=[None, "left", "center", "right", "full"], no_wrap=[None, True]):
+        leaf = ("mtext", dict(o), [])
+        yield leaf
+        if o["s"] == MARKUP[0]:
+            yield from _measuring(leaf)
+    for align in ALIGN:
+        yield ("panel", {"box": "ROUNDED", "expand": True, "padding": (0, 1), "width": None, "title": "T", "title_align": align, "title_markup": True}, [LEAF])
+    for just in JUST:
+        t = _table({}, [{}, {"justify": just}])
+        yield (t[0], t[1], [LEAF, ("mtext", {"s": MARKUP[2], "justify": None}, [])])
+        t = _table({"expand": True}, [{"justify": just, "no_wrap": True}])
+        yield (t[0], t[1], [("mtext", {"s": MARKUP[1], "justify": None}, [])])
+
+
 def small_trees():
     yield from level1()
     yield from level2()
+    yield from blank_trees()
+    yield from repeat_trees()
 
 
 def option_widths(desc):
